@@ -148,6 +148,18 @@ theorem C01_stream (v : PyVal) (h : WF v) (chunks : List Bytes) (b : Bytes)
   obtain ⟨b', hb', hl⟩ := C01_roundtrip v h
   rw [hd] at hb'; cases hb'; rw [hc]; exact hl
 
+/-- **C01 (dumps is injective).** Two supported values with the same dump are the same value — same type at
+every position, same dict order, same float bits: the byte string determines the value, so nothing
+type-distinguishing is lost on the wire (`1` / `True` / `1.0`, `[]` / `()`, `b""` / `""`, set / frozenset). -/
+theorem C01_dumps_injective (v w : PyVal) (hv : WF v) (hw : WF w) (h : dumps v = dumps w) : v = w := by
+  obtain ⟨b, hb, hl⟩ := C01_roundtrip v hv
+  obtain ⟨b', hb', hl'⟩ := C01_roundtrip w hw
+  rw [h, hb'] at hb
+  cases hb
+  rw [hl] at hl'
+  cases hl'
+  rfl
+
 /-! ### non-vacuity: a concrete non-trivial value satisfies the hypotheses -/
 
 def exampleValue : PyVal :=
